@@ -39,6 +39,7 @@ struct upump_sim_mgr {
     uint64_t budget;            /* 0 = unlimited */
     uint64_t dispatched;
     uint32_t spurious, late;
+    bool spurious_shared_only;
     struct upump_common_mgr common_mgr;
     uint8_t upool_extra[];
 };
@@ -246,6 +247,13 @@ static int upump_sim_mgr_run(struct upump_mgr *mgr, struct umutex *mutex)
     if (mutex != NULL)
         umutex_lock(mutex);
     for ( ; ; ) {
+        if (mutex != NULL && done > 0) {
+            /* libev releases and re-acquires the loop mutex around every
+             * poll, also when something is ready at once: a thread waiting to
+             * freeze the loop gets its chance between two dispatches */
+            umutex_unlock(mutex);
+            umutex_lock(mutex);
+        }
         struct upump_sim *ready[MAX_PUMPS];
         unsigned nready = 0, blocking = 0;
         uint64_t next_deadline = UINT64_MAX;
@@ -262,11 +270,13 @@ static int upump_sim_mgr_run(struct upump_mgr *mgr, struct umutex *mutex)
             else if (p->event == UPUMP_TYPE_TIMER) {
                 if (p->deadline < next_deadline)
                     next_deadline = p->deadline;
-            } else if (p->event == UPUMP_TYPE_FD_READ)
+            } else if (p->event == UPUMP_TYPE_FD_READ &&
+                       (!sim_mgr->spurious_shared_only || sim_fd_shared(p->fd)))
                 spurious[nspurious++] = p;
         }
         if (blocking == 0)
             break;              /* libev: no referenced watcher left */
+
         if (sim_mgr->budget && done >= sim_mgr->budget) {
             ret = UBASE_ERR_BUSY;
             break;
@@ -394,6 +404,11 @@ void upump_sim_mgr_set_faults(struct upump_mgr *mgr, uint32_t spurious_per1024,
 {
     upump_sim_mgr_from_upump_mgr(mgr)->spurious = spurious_per1024;
     upump_sim_mgr_from_upump_mgr(mgr)->late = late_per1024;
+}
+
+void upump_sim_mgr_set_spurious_shared_only(struct upump_mgr *mgr, bool on)
+{
+    upump_sim_mgr_from_upump_mgr(mgr)->spurious_shared_only = on;
 }
 
 bool upump_sim_active(struct upump *upump)
